@@ -1104,3 +1104,290 @@ theorem encPrefixA_fpb (p : Params) (pol : Policy) (tun : Tuning) (calls : List 
         exact encCallsA_fpb p 0 calls _ r b (by simp) (hb.mono (by omega)) h
 
 end Woodpile.EncWorld
+
+namespace Woodpile.Iovec
+open Woodpile.Arena
+
+/-! ### The decoder's world -/
+
+/-- The decoder's world: solo; nothing pending; the anchors count the slices. -/
+def DPW (i : Nat) (w : World) : Prop := Solo i w ∧ ∃ v, w.iov i = some v ∧ DPv v
+
+theorem DPW.pushCopy {i : Nat} {w w' : World} {bs : List UInt8} (h : DPW i w) (hp : w.pushCopy i bs = some w') :
+    DPW i w' := by
+  obtain ⟨hs, v, hv, hd⟩ := h
+  obtain ⟨v0, hv0, ⟨_, rfl⟩ | ⟨_, arena', next', chunk, off, v2, _, ho, rfl⟩⟩ := pushCopy_spec hp
+  · exact ⟨hs, v, hv, hd⟩
+  · rw [hv] at hv0; cases hv0
+    have hc1 : countSum (copyAnchors v.anchors chunk) =
+        (v.slices ++ [(⟨.chunk chunk, off, bs.length⟩ : Slice)]).length := by
+      rw [copyAnchors_count, hd.count]; simp
+    obtain ⟨hc2, hb, _⟩ := optimize_count ho hc1
+    exact ⟨(hs.setIov _).with_heap_next _ _, v2, iov_set_heap_next .., ⟨hc2, by rw [hb]; exact hd.nopend⟩⟩
+
+theorem DPW.pushBorrowed {i : Nat} {w w' : World} {s : Slice} (h : DPW i w) (hp : w.pushBorrowed i s = some w') :
+    DPW i w' := by
+  obtain ⟨hs, v, hv, hd⟩ := h
+  obtain ⟨v0, hv0, ⟨_, rfl⟩ | ⟨_, v', hpb, rfl⟩⟩ := pushBorrowed_spec hp
+  · exact ⟨hs, v, hv, hd⟩
+  · rw [hv] at hv0; cases hv0
+    obtain ⟨hc2, hb, _⟩ := pushBorrowedSlice_count hpb hd.count
+    exact ⟨hs.setIov _, v', by simp, ⟨hc2, by rw [hb]; exact hd.nopend⟩⟩
+
+theorem DPW.push {i : Nat} {w w' : World} {s : Slice} (h : DPW i w) (hp : w.push i s = some w') : DPW i w' := by
+  rcases push_cases hp with h1 | h1
+  · exact h.pushCopy h1
+  · exact h.pushBorrowed h1
+
+theorem DPW.addExt {i : Nat} {w : World} (h : DPW i w) (d : List UInt8) : DPW i (w.addExt d).1 := by
+  obtain ⟨hs, v, hv, hd⟩ := h
+  exact ⟨hs.of_same (fun _ _ => rfl) (fun _ => rfl) (fun _ => rfl), v, hv, hd⟩
+
+theorem DPW.consume {i : Nat} {w w' : World} {count k : Nat} (h : DPW i w) (hc : w.consume i count = some (w', k)) :
+    DPW i w' := by
+  obtain ⟨hs, v, hv, hd⟩ := h
+  obtain ⟨v0, n, v', hv0, _, hcs, rfl⟩ := consume_spec hc
+  rw [hv] at hv0; cases hv0
+  exact ⟨hs.setIov _, v', by simp, hd.consumeSlices hcs⟩
+
+theorem DPW.advance {i : Nat} {w w' : World} {count c : Nat} (h : DPW i w) (hc : w.advance i count = some (w', c)) :
+    DPW i w' := by
+  obtain ⟨hs, v, hv, hd⟩ := h
+  obtain ⟨v0, n, v', k, hv0, _, hcb, rfl⟩ := advance_spec hc
+  rw [hv] at hv0; cases hv0
+  refine ⟨hs.setIov _, v', by simp, ?_⟩
+  refine consumeBytes_preserves DPv (fun v v' k hp hc => hp.consumeSlices hc) ?_ _ v k 0 v' c hd hcb
+  intro v s rest m hp hs' _
+  exact ⟨by rw [hp.count, hs']; rfl, hp.nopend⟩
+
+theorem DPW.pushAnchor {i : Nat} {w w' : World} {a : Anchor} (h : DPW i w) (hp : w.pushAnchor i a = some w') :
+    DPW i w' := by
+  obtain ⟨hs, v, hv, hd⟩ := h
+  unfold World.pushAnchor at hp
+  rw [hv] at hp
+  simp only [Option.some.injEq] at hp
+  subst hp
+  exact ⟨hs.setIov _, { v with anchors := v.anchors ++ [{ a with count := 0 }] }, by simp,
+    ⟨by simp [hd.count], hd.nopend⟩⟩
+
+/-- The decoder's quiescent point: after `consume(k)` with `k` at least the number of buffered slices
+nothing is buffered and no anchor is left, so only the cache's chunk can be live. -/
+theorem DPW.full_drain {i : Nat} {w w' : World} {count k : Nat} (h : DPW i w)
+    (hcount : ∀ v, w.iov i = some v → v.slices.length ≤ count) (hc : w.consume i count = some (w', k)) :
+    DPW i w' ∧ ∃ v', w'.iov i = some v' ∧ v'.slices = [] ∧ v'.anchors = [] ∧
+      (∀ c ∈ w'.liveChunks, c ∈ arenaChunks v'.arena) ∧ w'.liveChunks.length ≤ 1 := by
+  have hd' := h.consume hc
+  obtain ⟨hs, v, hv, hd⟩ := h
+  obtain ⟨v0, n, v', hv0, hst, hcs, rfl⟩ := consume_spec hc
+  rw [hv] at hv0; cases hv0
+  have hn : n = v.slices.length := by
+    simp only [Iov.stableCount, hd.nopend, List.head?_nil, Option.some.injEq] at hst
+    exact hst.symm
+  have hall := hd.consume_all (count := min count n) (by rw [hn]; have := hcount v hv; omega) hcs
+  have hv' : (w.setIov i (some v')).iov i = some v' := by simp
+  have hlive := hd'.1.live hv'
+  refine ⟨hd', v', hv', hall.1, hall.2, ?_, ?_⟩
+  · intro c hc'
+    have := hlive c hc'
+    rw [hall.2] at this
+    simpa [anchorChunks] using this
+  · have := hd'.1.live_length hv'
+    rw [hall.2] at this
+    simpa using this
+
+end Woodpile.Iovec
+
+namespace Woodpile.EncWorld
+open Woodpile.Hcobs Woodpile.Iovec Woodpile.Arena
+
+theorem isAppend_iff (op : Woodpile.Pipe.Op) (h : Woodpile.Pipe.Op.isAppend op = true) : ∃ bs, op = .append bs := by
+  cases op with
+  | append bs => exact ⟨bs, rfl⟩
+  | register n => simp [Woodpile.Pipe.Op.isAppend] at h
+  | fill id bs => simp [Woodpile.Pipe.Op.isAppend] at h
+
+theorem applyStep_appends_dpw {i : Nat} {src : Slice} (A : List Emit)
+    (hA : (A.map (·.op)).all Woodpile.Pipe.Op.isAppend = true) : ∀ {w w' : World} {toks toks' : List Backref},
+    DPW i w → applyStep w i toks A src = some (w', toks') → DPW i w' := by
+  induction A with
+  | nil =>
+    intro w w' toks toks' h ha
+    simp only [applyStep, Option.some.injEq, Prod.mk.injEq] at ha
+    rw [← ha.1]; exact h
+  | cons e t ih =>
+    intro w w' toks toks' h ha
+    simp only [List.map_cons, List.all_cons, Bool.and_eq_true] at hA
+    simp only [applyStep] at ha
+    cases h1 : applyEmit w i toks e src with
+    | none => rw [h1] at ha; cases ha
+    | some x =>
+      obtain ⟨w1, toks1⟩ := x
+      rw [h1] at ha
+      refine ih hA.2 ?_ ha
+      obtain ⟨op, m⟩ := e
+      obtain ⟨bs, hbs⟩ := isAppend_iff op hA.1
+      subst hbs
+      cases m with
+      | copy =>
+        simp only [applyEmit, Option.map_eq_some_iff, Prod.mk.injEq] at h1
+        obtain ⟨w2, h2, rfl, _⟩ := h1
+        exact h.pushCopy h2
+      | borrow =>
+        simp only [applyEmit, Option.map_eq_some_iff, Prod.mk.injEq] at h1
+        obtain ⟨w2, h2, rfl, _⟩ := h1
+        exact h.push h2
+
+theorem decFeed_dpw (p : Params) (m : Method) (i : Nat) (base : Slice) (fuel : Nat) :
+    ∀ (w : World) (s : DecState) (input : List UInt8) (pos : Nat) (w' : World) (res : Except DecErr DecState),
+    DPW i w → decFeed p m fuel w i s base input pos = some (w', res) → DPW i w' := by
+  induction fuel with
+  | zero =>
+    intro w s input pos w' res h hf
+    simp only [decFeed_zero, Option.some.injEq, Prod.mk.injEq] at hf
+    rw [← hf.1]; exact h
+  | succ fuel ih =>
+    intro w s input pos w' res h hf
+    cases input with
+    | nil =>
+      simp only [decFeed_nil, Option.some.injEq, Prod.mk.injEq] at hf
+      rw [← hf.1]; exact h
+    | cons b rest =>
+      obtain ⟨happ_err, happ_ok⟩ := dec_once_appends p m s b rest
+      cases ho : Dec.once p m s b rest with
+      | error ee =>
+        obtain ⟨err, es⟩ := ee
+        rw [decFeed_cons_error p m fuel w i s base b rest pos err es ho] at hf
+        cases h1 : applyStep w i [] es base with
+        | none => rw [h1] at hf; cases hf
+        | some x =>
+          obtain ⟨w1, toks1⟩ := x
+          rw [h1] at hf
+          simp only [Option.some.injEq, Prod.mk.injEq] at hf
+          rw [← hf.1]
+          exact applyStep_appends_dpw es (happ_err err es ho) h h1
+      | ok o =>
+        rw [decFeed_cons_ok p m fuel w i s base b rest pos o ho] at hf
+        cases h1 : applyStep w i [] o.emits { base with off := base.off + pos, len := base.len - pos } with
+        | none => rw [h1] at hf; cases hf
+        | some x =>
+          obtain ⟨w1, toks1⟩ := x
+          rw [h1] at hf
+          exact ih w1 o.st _ _ w' res (applyStep_appends_dpw o.emits (happ_ok o ho) h h1) hf
+
+theorem dpw_readOwn {i : Nat} {w w' : World} {r : ReadN.Reader} {count attempts : Nat}
+    {res : Except Nat ASlice} {o : ReadN.Out} (h : DPW i w) (hr : readOwn w i r count attempts = some (w', res, o)) :
+    DPW i w' := by
+  obtain ⟨hs, v, hv, hd⟩ := h
+  obtain ⟨v0, ar', hv0, hv', hi, ha, hsl, _⟩ := readOwn_shape hr
+  rw [hv] at hv0; cases hv0
+  exact ⟨hs.of_same hi ha hsl, _, hv', ⟨hd.count, hd.nopend⟩⟩
+
+/-- Every decoder run (all input methods, any drain schedule, whatever the verdict) ends — and, taking
+prefixes of the call list, passes between any two calls — in a world that holds one iovec and nothing
+else, with nothing pending. -/
+theorem decCallsA_dpw (p : Params) (i : Nat) (calls : List ACall) :
+    ∀ (w : World) (s : DecState) (dr : List UInt8) (w' : World) (dr' : List UInt8) (res : Except DecErr Unit),
+    DPW i w → decCallsA p i w s dr calls = some (w', dr', res) → DPW i w' := by
+  induction calls with
+  | nil =>
+    intro w s dr w' dr' res h hc
+    simp only [decCallsA, Option.some.injEq, Prod.mk.injEq] at hc
+    rw [← hc.1]; exact h
+  | cons c t ih =>
+    intro w s dr w' dr' res h hc
+    cases c with
+    | call c =>
+      cases c with
+      | feed m d =>
+        simp only [decCallsA] at hc
+        cases h1 : decFeedCall p i w s m d with
+        | none => rw [h1] at hc; cases hc
+        | some x =>
+          obtain ⟨w1, r1⟩ := x
+          rw [h1] at hc
+          have hw1 : DPW i w1 := by
+            cases m with
+            | copy => exact decFeed_dpw p .copy i _ _ w s d 0 w1 r1 h h1
+            | borrow => exact decFeed_dpw p .borrow i _ _ (w.addExt d).1 s d 0 w1 r1 (h.addExt d) h1
+          cases r1 with
+          | ok s1 => exact ih w1 s1 dr w' dr' res hw1 hc
+          | error e =>
+            simp only [Option.some.injEq, Prod.mk.injEq] at hc
+            rw [← hc.1]; exact hw1
+      | consume k =>
+        simp only [decCallsA] at hc
+        cases hv : w.iov i with
+        | none => rw [hv] at hc; cases hc
+        | some v =>
+          cases hx : w.consume i k with
+          | none => rw [hv, hx] at hc; cases hc
+          | some x =>
+            rw [hv, hx] at hc
+            exact ih x.1 s _ w' dr' res (h.consume (k := x.2) (by rw [hx])) hc
+      | advance k =>
+        simp only [decCallsA] at hc
+        cases hv : w.iov i with
+        | none => rw [hv] at hc; cases hc
+        | some v =>
+          cases hx : w.advance i k with
+          | none => rw [hv, hx] at hc; cases hc
+          | some x =>
+            rw [hv, hx] at hc
+            exact ih x.1 s _ w' dr' res (h.advance (c := x.2) (by rw [hx])) hc
+    | read count attempts src script =>
+      simp only [decCallsA] at hc
+      cases hd : decodeRead p w i s ⟨src, script⟩ count attempts with
+      | none => rw [hd] at hc; cases hc
+      | some y =>
+        obtain ⟨w1, rr, o⟩ := y
+        rw [hd] at hc
+        have hw1 : DPW i w1 := by
+          simp only [decodeRead] at hd
+          cases hro : readOwn w i ⟨src, script⟩ count attempts with
+          | none => rw [hro] at hd; cases hd
+          | some z =>
+            obtain ⟨wa, resa, oa⟩ := z
+            rw [hro] at hd
+            have hwa := dpw_readOwn h hro
+            cases resa with
+            | error k =>
+              simp only [Option.some.injEq, Prod.mk.injEq] at hd
+              rw [← hd.1]; exact hwa
+            | ok a =>
+              simp only [decodeAnchored] at hd
+              cases hf : decFeed p .borrow ((wa.sliceBytes a.slice).length + 1) wa i s a.slice (wa.sliceBytes a.slice) 0 with
+              | none => rw [hf] at hd; cases hd
+              | some u =>
+                obtain ⟨wb, resb⟩ := u
+                rw [hf] at hd
+                simp only at hd
+                have hwb := decFeed_dpw p .borrow i _ _ wa s _ 0 wb resb hwa hf
+                cases hpa : pushAnchorOf wb i a with
+                | none => rw [hpa] at hd; cases hd
+                | some wc =>
+                  rw [hpa] at hd
+                  simp only [Option.some.injEq, Prod.mk.injEq] at hd
+                  rw [← hd.1]
+                  simp only [pushAnchorOf] at hpa
+                  split at hpa
+                  · simp only [Option.some.injEq] at hpa
+                    rw [← hpa]; exact hwb
+                  · exact hwb.pushAnchor hpa
+        cases rr with
+        | error k => exact ih w1 s dr w' dr' res hw1 hc
+        | ok q =>
+          obtain ⟨n, verdict⟩ := q
+          cases verdict with
+          | ok s1 => exact ih w1 s1 dr w' dr' res hw1 hc
+          | error e =>
+            simp only [Option.some.injEq, Prod.mk.injEq] at hc
+            rw [← hc.1]; exact hw1
+
+theorem dpw_fresh (pol : Policy) (tun : Tuning) : DPW 0 (World.fresh pol tun) :=
+  ⟨solo_fresh pol tun, Iov.empty, rfl, ⟨rfl, rfl⟩⟩
+
+theorem decRunA_dpw (p : Params) (pol : Policy) (tun : Tuning) (calls : List ACall) (w' : World) (dr : List UInt8)
+    (res : Except DecErr Unit) (h : decRunA p pol tun calls = some (w', dr, res)) : DPW 0 w' :=
+  decCallsA_dpw p 0 calls _ _ _ w' dr res (dpw_fresh pol tun) h
+
+end Woodpile.EncWorld
